@@ -39,35 +39,64 @@ Proof.
 Qed.
 
 (* ---------------- checkKKT: upper bound of every documented violation ---------------- *)
+Lemma maxA_ub x y : x <= maxA qops x y /\ y <= maxA qops x y.
+Proof. rewrite maxA_q. destruct (qltb_spec x y) as [[E X]|[E X]]; rewrite E; split; lra. Qed.
+Lemma maxA_lub x y z : x <= z -> y <= z -> maxA qops x y <= z.
+Proof. intros. rewrite maxA_q. destruct (qltb x y); assumption. Qed.
+
+(* one round of checkKKT on plain numbers *)
+Definition kstep (vs r up dn : Q) : Q :=
+  let r1 := maxA qops (0 - dn) r in
+  let r2 := if qltb vs C then maxA qops up r1 else r1 in
+  if Qeq_bool vs C then maxA qops (up - dn) r2 else r2.
+
+Lemma kstep_ub vs r up dn :
+  r <= kstep vs r up dn /\ - dn <= kstep vs r up dn /\ (vs < C -> up <= kstep vs r up dn) /\ (vs == C -> up - dn <= kstep vs r up dn).
+Proof.
+  unfold kstep. cbv zeta.
+  pose proof (maxA_ub (0 - dn) r) as [A1 A2]. set (r1 := maxA qops (0 - dn) r) in *.
+  destruct (qltb_spec vs C) as [[E1 X1]|[E1 X1]]; rewrite E1.
+  - pose proof (maxA_ub up r1) as [B1 B2]. set (r2 := maxA qops up r1) in *.
+    destruct (qeqb_spec vs C) as [[E2 X2]|[E2 X2]]; rewrite E2.
+    + exfalso. lra.
+    + repeat split; intros; lra.
+  - destruct (qeqb_spec vs C) as [[E2 X2]|[E2 X2]]; rewrite E2.
+    + pose proof (maxA_ub (up - dn) r1) as [B1 B2]. repeat split; intros; lra.
+    + repeat split; intros; try lra; try contradiction.
+Qed.
+
+Lemma kstep_lub vs r up dn z : r <= z -> - dn <= z -> (vs < C -> up <= z) -> (vs == C -> up - dn <= z) -> kstep vs r up dn <= z.
+Proof.
+  intros H1 H2 H3 H4. unfold kstep. cbv zeta.
+  assert (R1 : maxA qops (0 - dn) r <= z) by (apply maxA_lub; lra).
+  set (r1 := maxA qops (0 - dn) r) in *.
+  destruct (qltb_spec vs C) as [[E1 X1]|[E1 X1]]; rewrite E1.
+  - assert (R2 : maxA qops up r1 <= z) by (apply maxA_lub; [apply H3; exact X1 | exact R1]).
+    destruct (qeqb_spec vs C) as [[E2 X2]|[E2 X2]]; rewrite E2; [exfalso; lra | exact R2].
+  - destruct (qeqb_spec vs C) as [[E2 X2]|[E2 X2]]; rewrite E2; [|exact R1].
+    apply maxA_lub; [apply H4; exact X2 | exact R1].
+Qed.
+
+Lemma skkt_S (s : qmst) m : skkt qops C s (S m) =
+  kstep (evsum s m) (skkt qops C s m) (mvp_up qops s m (eact s m)) (mvp_down qops s m (eact s m)).
+Proof. reflexivity. Qed.
+
 Lemma skkt_nonneg (s : qmst) : forall m, 0 <= skkt qops C s m.
 Proof.
-  induction m as [|m IH]; cbn [skkt]; qs; [lra|]. rewrite !maxA_q.
-  repeat match goal with |- context [qltb ?a ?b] => destruct (qltb_spec a b) as [[?E ?X]|[?E ?X]]; rewrite ?E end;
-  repeat match goal with |- context [Qeq_bool ?a ?b] => destruct (Qeq_bool a b) end; try lra.
+  induction m as [|m IH]; [cbn [skkt]; qs; lra|]. rewrite skkt_S.
+  destruct (kstep_ub (evsum s m) (skkt qops C s m) (mvp_up qops s m (eact s m)) (mvp_down qops s m (eact s m))) as (A & _). lra.
 Qed.
 
 Lemma skkt_ub (s : qmst) : forall m e, (e < m)%nat ->
   let up := mvp_up qops s e (eact s e) in let down := mvp_down qops s e (eact s e) in
   - down <= skkt qops C s m /\ (evsum s e < C -> up <= skkt qops C s m) /\ (evsum s e == C -> up - down <= skkt qops C s m).
 Proof.
-  induction m as [|m IH]; intros e He; [lia|]. cbn [skkt]. qs. rewrite !maxA_q.
-  set (r := skkt qops C s m) in *. set (upm := mvp_up qops s m (eact s m)). set (dnm := mvp_down qops s m (eact s m)).
-  assert (Mono : r <= (let r1 := if qltb (0 - dnm) r then r else 0 - dnm in
-                       let r2 := if qltb (evsum s m) C then (if qltb upm r1 then r1 else upm) else r1 in
-                       if Qeq_bool (evsum s m) C then (if qltb (upm - dnm) r2 then r2 else upm - dnm) else r2)).
-  { cbv zeta.
-    repeat match goal with |- context [qltb ?a ?b] => destruct (qltb_spec a b) as [[?E ?X]|[?E ?X]]; rewrite ?E end;
-    repeat match goal with |- context [Qeq_bool ?a ?b] => destruct (Qeq_bool a b) end; lra. }
-  cbv zeta in Mono.
+  induction m as [|m IH]; intros e He; [lia|]. rewrite skkt_S.
+  destruct (kstep_ub (evsum s m) (skkt qops C s m) (mvp_up qops s m (eact s m)) (mvp_down qops s m (eact s m))) as (A1 & A2 & A3 & A4).
   destruct (Nat.eq_dec e m) as [->|Ne].
-  - fold upm dnm.
-    destruct (qltb_spec (0 - dnm) r) as [[E1 X1]|[E1 X1]]; rewrite E1;
-    destruct (qltb_spec (evsum s m) C) as [[E2 X2]|[E2 X2]]; rewrite E2;
-    destruct (qeqb_spec (evsum s m) C) as [[E3 X3]|[E3 X3]]; rewrite E3;
-    repeat match goal with |- context [qltb ?a ?b] => destruct (qltb_spec a b) as [[?E ?X]|[?E ?X]]; rewrite ?E end;
-    (split; [lra|]; split; intros; lra).
-  - destruct (IH e ltac:(lia)) as (A1 & A2 & A3). cbv zeta in A1, A2, A3.
-    split; [lra|]. split; intros H; [specialize (A2 H) | specialize (A3 H)]; lra.
+  - cbv zeta. split; [exact A2|]. split; assumption.
+  - destruct (IH e ltac:(lia)) as (B1 & B2 & B3). cbv zeta in B1, B2, B3 |- *.
+    split; [lra|]. split; intros H; [specialize (B2 H) | specialize (B3 H)]; lra.
 Qed.
 
 (* eps-KKT of the simplex-constrained dual on the active variables *)
@@ -81,38 +110,84 @@ Proof.
   intros H e He b Hb v. destruct (skkt_ub s m e He) as (A1 & A2 & A3). cbv zeta in A1, A2, A3.
   pose proof (mvp_up_ge s e _ b Hb) as U. fold v in U.
   split; [|split].
-  - intros Pz. pose proof (mvp_down_le s e _ b Hb Pz). fold v in H0. lra.
+  - intros Pz. pose proof (mvp_down_le s e _ b Hb Pz) as D. fold v in D. lra.
   - intros Hc. specialize (A2 Hc). lra.
   - intros Hc b' Hb' Pz. specialize (A3 Hc). pose proof (mvp_down_le s e _ b' Hb' Pz). lra.
 Qed.
 
 (* ---------------- first order loop of selectWorkingSet ---------------- *)
+(* one round on plain numbers: (maxGradient, maxSimplexGradient) *)
+Definition gstep (cg : bool) (mg msg up dn : Q) : Q * Q :=
+  let msg1 := if negb cg && qltb msg (up - dn) then up - dn else msg in
+  let mg1 := if cg && qltb mg up then up else mg in
+  (if qltb mg1 (0 - dn) then 0 - dn else mg1, msg1).
+
+Lemma gstep_ub cg mg msg up dn :
+  mg <= fst (gstep cg mg msg up dn) /\ msg <= snd (gstep cg mg msg up dn) /\ - dn <= fst (gstep cg mg msg up dn) /\
+  (cg = true -> up <= fst (gstep cg mg msg up dn)) /\ (cg = false -> up - dn <= snd (gstep cg mg msg up dn)).
+Proof.
+  unfold gstep. cbv zeta. cbn [fst snd]. destruct cg; cbn [negb andb].
+  - destruct (qltb_spec mg up) as [[E1 X1]|[E1 X1]]; rewrite E1;
+    match goal with |- context [qltb ?a ?b] => destruct (qltb_spec a b) as [[E2 X2]|[E2 X2]]; rewrite E2 end;
+    repeat split; intros; try lra; discriminate.
+  - destruct (qltb_spec msg (up - dn)) as [[E1 X1]|[E1 X1]]; rewrite E1;
+    destruct (qltb_spec mg (0 - dn)) as [[E2 X2]|[E2 X2]]; rewrite E2;
+    repeat split; intros; try lra; discriminate.
+Qed.
+
+Lemma gstep_lub cg mg msg up dn z : mg <= z -> msg <= z -> - dn <= z -> (cg = true -> up <= z) -> (cg = false -> up - dn <= z) ->
+  fst (gstep cg mg msg up dn) <= z /\ snd (gstep cg mg msg up dn) <= z.
+Proof.
+  intros H1 H2 H3 H4 H5. unfold gstep. cbv zeta. cbn [fst snd]. destruct cg; cbn [negb andb].
+  - specialize (H4 eq_refl). destruct (qltb mg up); match goal with |- context [qltb ?a ?b] => destruct (qltb a b) end; split; lra.
+  - specialize (H5 eq_refl). destruct (qltb msg (up - dn)); destruct (qltb mg (0 - dn)); split; lra.
+Qed.
+
+Lemma ssel_first_S (s : qmst) m :
+  let r := ssel_first qops C s m in let r' := ssel_first qops C s (S m) in
+  let g := gstep (qltb (evsum s m) C) (sf_mg r) (sf_msg r) (mvp_up qops s m (eact s m)) (mvp_down qops s m (eact s m)) in
+  sf_mg r' = fst g /\ sf_msg r' = snd g.
+Proof.
+  cbv zeta. cbn [ssel_first]. qs. destruct (mvp_full_vals s m (eact s m)) as [F1 F2]. rewrite F1, F2.
+  unfold gstep. cbv zeta. cbn [fst snd].
+  destruct (negb (qltb (evsum s m) C) && qltb (sf_msg (ssel_first qops C s m)) (mvp_up qops s m (eact s m) - mvp_down qops s m (eact s m)));
+    cbn [sf_mg sf_msg];
+    destruct (qltb (evsum s m) C && qltb (sf_mg (ssel_first qops C s m)) (mvp_up qops s m (eact s m))); cbn [sf_mg sf_msg];
+    match goal with |- context [if qltb ?a ?b then _ else _] => destruct (qltb a b) end; cbn [sf_mg sf_msg]; split; reflexivity.
+Qed.
+
 Lemma ssel_first_kkt (s : qmst) : forall m, (forall e, (e < m)%nat -> evsum s e <= C) ->
   let r := ssel_first qops C s m in
   0 <= sf_mg r /\ 0 <= sf_msg r /\ maxA qops (sf_mg r) (sf_msg r) == skkt qops C s m.
 Proof.
-  induction m as [|m IH]; intros HV; cbn [ssel_first skkt]; qs.
-  - cbn [sf_mg sf_msg]. rewrite maxA_q. destruct (qltb 0 0); repeat split; lra.
-  - destruct (IH ltac:(intros; apply HV; lia)) as (N1 & N2 & EQ). cbv zeta in N1, N2, EQ.
-    destruct (mvp_full_vals s m (eact s m)) as [F1 F2]. rewrite F1, F2.
-    set (up := mvp_up qops s m (eact s m)). set (dn := mvp_down qops s m (eact s m)).
+  induction m as [|m IH]; intros HV.
+  - cbn [ssel_first skkt]. qs. cbn [sf_mg sf_msg]. rewrite maxA_q. destruct (qltb 0 0); repeat split; lra.
+  - destruct (IH ltac:(intros; apply HV; lia)) as (N1 & N2 & EQ). cbv zeta in N1, N2, EQ |- *.
+    destruct (ssel_first_S s m) as [G1 G2]. cbv zeta in G1, G2. rewrite G1, G2, skkt_S.
     set (r := ssel_first qops C s m) in *. set (k := skkt qops C s m) in *.
+    set (up := mvp_up qops s m (eact s m)) in *. set (dn := mvp_down qops s m (eact s m)) in *.
+    set (cg := qltb (evsum s m) C) in *.
+    destruct (gstep_ub cg (sf_mg r) (sf_msg r) up dn) as (U1 & U2 & U3 & U4 & U5).
+    destruct (kstep_ub (evsum s m) k up dn) as (K1 & K2 & K3 & K4).
+    destruct (maxA_ub (sf_mg r) (sf_msg r)) as [M1 M2].
     specialize (HV m ltac:(lia)).
-    rewrite !maxA_q in *.
-    destruct (qltb_spec (evsum s m) C) as [[E1 X1]|[E1 X1]]; rewrite ?E1; cbn [negb andb].
-    + (* canGrow *)
-      destruct (qeqb_spec (evsum s m) C) as [[E2 X2]|[E2 X2]]; rewrite ?E2; [lra|].
-      destruct (qltb_spec (sf_mg r) up) as [[E3 X3]|[E3 X3]]; rewrite ?E3; cbn [sf_mg sf_msg sf_i sf_mse];
-      repeat match goal with |- context [qltb ?a ?b] => destruct (qltb_spec a b) as [[?E ?X]|[?E ?X]]; rewrite ?E; cbn [sf_mg sf_msg] end;
-      repeat match type of EQ with context [qltb ?a ?b] => destruct (qltb_spec a b) as [[?E ?X]|[?E ?X]]; rewrite ?E in EQ end;
-      repeat split; lra.
-    + (* at the bound *)
-      assert (X2 : evsum s m == C) by lra.
-      destruct (qeqb_spec (evsum s m) C) as [[E2 _]|[E2 Y]]; rewrite ?E2; [|contradiction].
-      destruct (qltb_spec (sf_msg r) (up - dn)) as [[E3 X3]|[E3 X3]]; rewrite ?E3; cbn [sf_mg sf_msg sf_i sf_mse];
-      repeat match goal with |- context [qltb ?a ?b] => destruct (qltb_spec a b) as [[?E ?X]|[?E ?X]]; rewrite ?E; cbn [sf_mg sf_msg] end;
-      repeat match type of EQ with context [qltb ?a ?b] => destruct (qltb_spec a b) as [[?E ?X]|[?E ?X]]; rewrite ?E in EQ end;
-      repeat split; lra.
+    assert (CgT : cg = true -> evsum s m < C) by (unfold cg; intros X; apply qltb_true; exact X).
+    assert (CgF : cg = false -> evsum s m == C) by (unfold cg; intros X; apply qltb_false in X; lra).
+    split; [lra|]. split; [lra|].
+    set (g := gstep cg (sf_mg r) (sf_msg r) up dn) in *.
+    destruct (maxA_ub (fst g) (snd g)) as [M3 M4].
+    assert (LE1 : maxA qops (fst g) (snd g) <= kstep (evsum s m) k up dn).
+    { destruct (gstep_lub cg (sf_mg r) (sf_msg r) up dn (kstep (evsum s m) k up dn)) as [L1 L2]; try lra.
+      - intros X. apply K3. apply CgT. exact X.
+      - intros X. apply K4. apply CgF. exact X.
+      - fold g in L1, L2. apply maxA_lub; assumption. }
+    assert (LE2 : kstep (evsum s m) k up dn <= maxA qops (fst g) (snd g)).
+    { apply kstep_lub.
+      - rewrite <- EQ. apply maxA_lub; lra.
+      - lra.
+      - intros X. assert (cg = true) by (unfold cg; apply qltb_true; exact X). specialize (U4 H). lra.
+      - intros X. assert (cg = false) by (unfold cg; apply qltb_false; lra). specialize (U5 H). lra. }
+    lra.
 Qed.
 
 (* the first variable is 0 or a really seen active slot; the best simplex example is an active example *)
@@ -165,11 +240,11 @@ Variable K0 : nat -> nat -> Q.
 Variable s : qmst.
 
 Lemma sbox_inner_idx Qii gi ka vals a cg i : forall m st, (fst st = i \/ (fst st < actvar s)%nat) ->
-  let st' := sbox_inner qops micro C s Qii gi ka vals a cg m st in fst st' = i \/ (fst st' < actvar s)%nat.
+  let st' := sbox_inner qops micro s Qii gi ka vals a cg m st in fst st' = i \/ (fst st' < actvar s)%nat.
 Proof.
   induction m as [|m IH]; intros st H; cbn [sbox_inner]; [exact H|].
   specialize (IH st H). cbv zeta in IH.
-  destruct (sbox_skip qops C s cg (evar s a m)) eqn:Sk; [exact IH|].
+  destruct (sbox_skip qops s cg (evar s a m)) eqn:Sk; [exact IH|].
   match goal with |- context [if ?c then _ else _] => destruct c end; [|exact IH].
   cbn [fst]. right. unfold sbox_skip in Sk. apply orb_false_iff in Sk. destruct Sk as [Sk _]. apply orb_false_iff in Sk. destruct Sk as [Sk _].
   destruct (Nat.leb_spec (actvar s) (evar s a m)); [discriminate | assumption].
@@ -197,7 +272,7 @@ Qed.
 Definition pair_ok (pr : nat * nat) : Prop := pr = (0%nat, 0%nat) \/ ((fst pr < actvar s)%nat /\ (snd pr < actvar s)%nat).
 
 Lemma ssim_inner_idx e cg i Qee vals : (i < actvar s)%nat -> forall m st, pair_ok (fst st) ->
-  pair_ok (fst (ssim_inner qops micro C s e cg i Qee vals m st)).
+  pair_ok (fst (ssim_inner qops micro s e cg i Qee vals m st)).
 Proof.
   intros Hi. induction m as [|m IH]; intros st H; cbn [ssim_inner]; [exact H|].
   specialize (IH st H).
@@ -208,7 +283,7 @@ Proof.
 Qed.
 
 Lemma ssim_outer_idx e cg : forall m, (forall b, (b < m)%nat -> (eavar s e b < actvar s)%nat) -> forall st, pair_ok (fst st) ->
-  pair_ok (fst (ssim_outer qops micro P ncl C Mrow Mdef K0 s e cg m st)).
+  pair_ok (fst (ssim_outer qops micro P ncl Mrow Mdef s e cg m st)).
 Proof.
   induction m as [|m IH]; intros HA st H; cbn [ssim_outer]; [exact H|].
   assert (Hi : (eavar s e m < actvar s)%nat) by (apply HA; lia).
@@ -220,7 +295,7 @@ Proof.
 Qed.
 
 Lemma max_gain_simplex_idx e : (forall b, (b < eact s e)%nat -> (eavar s e b < actvar s)%nat) ->
-  pair_ok (fst (max_gain_simplex qops micro P ncl C Mrow Mdef K0 s e)).
+  pair_ok (fst (max_gain_simplex qops micro P ncl C Mrow Mdef s e)).
 Proof. intros HA. unfold max_gain_simplex. apply ssim_outer_idx; [exact HA | left; reflexivity]. Qed.
 
 End Idx.
@@ -261,11 +336,11 @@ Proof.
   assert (B0 : pair_ok s (fst (max_gain_box qops micro P ncl C Mrow Mdef K0 s (sf_i f)))).
   { destruct (max_gain_box_idx micro P ncl Mrow Mdef K0 s (sf_i f)) as (A1 & A2 & _). cbv zeta in A1, A2.
     right. rewrite A1. split; [exact Hi|]. destruct A2 as [A2|A2]; [rewrite A2; exact Hi | exact A2]. }
-  assert (S1 : pair_ok s (fst (max_gain_simplex qops micro P ncl C Mrow Mdef K0 s (vex s (sf_i f))))).
+  assert (S1 : pair_ok s (fst (max_gain_simplex qops micro P ncl C Mrow Mdef s (vex s (sf_i f))))).
   { apply max_gain_simplex_idx. apply (active_slots s _ I). apply (it_v _ _ _ I _ Hin). }
   assert (B1 : pair_ok s (fst (if o_ltb qops (snd (max_gain_box qops micro P ncl C Mrow Mdef K0 s (sf_i f)))
-                                   (snd (max_gain_simplex qops micro P ncl C Mrow Mdef K0 s (vex s (sf_i f))))
-                               then max_gain_simplex qops micro P ncl C Mrow Mdef K0 s (vex s (sf_i f))
+                                   (snd (max_gain_simplex qops micro P ncl C Mrow Mdef s (vex s (sf_i f))))
+                               then max_gain_simplex qops micro P ncl C Mrow Mdef s (vex s (sf_i f))
                                else max_gain_box qops micro P ncl C Mrow Mdef K0 s (sf_i f))))
     by (match goal with |- context [if ?c then _ else _] => destruct c end; assumption).
   apply OK.
@@ -284,3 +359,30 @@ End Sel.
 
 End SimSel.
 
+(* ---------------- the stall that c9be7fe4 repaired ---------------- *)
+(* one example with two variables at the simplex bound: alpha = (0, 1), C = 1, Q = identity, linear = (10, 10), hence
+   gradient = linear - Q alpha = (10, 9).  Only the step along the simplex (variable 0 up, variable 1 down) is possible.
+   The code before the repair ranks the pair (0,0) by 10*10/1 although variable 0 cannot grow, selects it, and
+   updateSMO(0,0) does not move: the solver stalls with violation 1.  The repaired code selects (0,1), which moves. *)
+Definition stM : nat -> list (nat * Q) := fun r => [(r, 1)].
+Definition stall_state : qmst :=
+  mkst (fun v => if (v =? 1)%nat then 1 else 0) (fun v => if (v =? 0)%nat then 10 else 9) (fun _ => 10)
+       (fun _ => 0%nat) (fun v => v) (fun v => v) (fun _ => 1)
+       (fun e => e) (fun _ => 0%nat) (fun _ => 2%nat) (fun _ p => p) (fun _ b => b) (fun _ => 1) (fun _ => 1) 1 2 false.
+
+Example old_max_gain_box_stalls_refuted :
+  let sel_old := old_simplex_select qops qmicro 2 1 1 stM (fun _ => 0) (fun _ _ => 1) stall_state in
+  let sel_new := simplex_select qops qmicro 2 1 1 stM (fun _ => 0) (fun _ _ => 1) stall_state in
+  let smo := simplex_smo qops qlowest qtiny 2 1 1 stM (fun _ => 0) (fun _ _ => 1) stall_state in
+  (* consistent state: gradient = linear - Q alpha, sum of the example = varsum = C *)
+  Inv_grad 2 1 1 stM (fun _ => 0) (fun _ _ => 1) stall_state /\
+  (* before the repair: violation 1 > 0, pair (0,0), and the step leaves both variables where they are *)
+  fst sel_old == 1 /\ snd sel_old = (0%nat, 0%nat) /\
+  malpha (smo 0%nat 0%nat) 0%nat == 0 /\ malpha (smo 0%nat 0%nat) 1%nat == 1 /\
+  (* after the repair: the pair (0,1), and the step moves *)
+  fst sel_new == 1 /\ snd sel_new = (0%nat, 1%nat) /\ 0 < malpha (smo 0%nat 1%nat) 0%nat.
+Proof.
+  split.
+  - intros f Hf. cbn in Hf. assert (f = 0%nat \/ f = 1%nat) as [->| ->] by lia; vm_compute; reflexivity.
+  - vm_compute. repeat split; try reflexivity; discriminate.
+Qed.
